@@ -360,6 +360,10 @@ def eval_rvalue(fr, rv, ctx):
         if isinstance(a, int) and isinstance(b, int):
             return {'Lt': a < b, 'Le': a <= b, 'Gt': a > b, 'Ge': a >= b, 'Add': a + b, 'Sub': a - b}[op]
         if op in ('Lt', 'Le', 'Gt', 'Ge'):
+            ml = re.search(r'_(\d+)', m.group(2))
+            ty = getattr(CURRENT_FN[-1], 'types', {}).get(int(ml.group(1)), '') if ml else ''
+            if re.fullmatch(r'&*i(8|16|32|64|128|size)', ty.strip()) or re.search(r'const -?\d+_i(8|16|32|64|size)', m.group(2)):
+                return {'Lt': lambda: a < b, 'Le': lambda: a <= b, 'Gt': lambda: a > b, 'Ge': lambda: a >= b}[op]()
             return {'Lt': ULT, 'Le': ULE, 'Gt': UGT, 'Ge': UGE}[op](a, b)
         if op == 'Add': return a + b
         if op == 'Sub': return a - b
@@ -654,7 +658,7 @@ def call(fr, callee, args, ctx):
         o = args[0]
         return o if o.variant == 'None' else Enum('Some', [o.f[0].get()], sym_some=o.sym_some)
     if re.match(r'(std::ops::)?RangeInclusive::<\w+>::new$', c): return (args[0], args[1])
-    if c == 'std::ops::RangeInclusive::<u16>::contains::<u16>':
+    if re.fullmatch(r'(std::ops::)?RangeInclusive::<(u8|u16|u32|u64|usize)>::contains::<\w+>', c):
         rg = args[0].get() if isinstance(args[0], Ref) else args[0]
         lo, hi = rg; x = args[1].get() if isinstance(args[1], Ref) else args[1]
         return And(UGE(x, lo), ULE(x, hi))
@@ -777,6 +781,65 @@ def call(fr, callee, args, ctx):
             r = callc(args[1], Ref(Cell(o.f[0]))); keep = ctx.branch(r) if not isinstance(r, bool) else r
             return Enum('Some', [o.f[0]]) if keep else Enum('None', [])
     if re.fullmatch(r'<(S|String|&str|str) as AsRef<(str|\[u8\])>>::as_ref', c): return _d(args[0])
+    ma_ = re.fullmatch(r'<&?u(8|16|32|64|size) as (Add|Sub|Mul)<&?u(?:8|16|32|64|size)>>::(add|sub|mul)', c)
+    if ma_:
+        a, b = _d(args[0]), _d(args[1])
+        if isinstance(a, int) and isinstance(b, int): return {'add': a + b, 'sub': a - b, 'mul': a * b}[ma_.group(3)]
+        w = (a if not isinstance(a, int) else b).size()
+        a = BitVecVal(a, w) if isinstance(a, int) else a
+        b = BitVecVal(b, w) if isinstance(b, int) else b
+        ea, eb = ZeroExt(w, a), ZeroExt(w, b)
+        wide = {'add': ea + eb, 'sub': ea - eb, 'mul': ea * eb}[ma_.group(3)]
+        res = Extract(w - 1, 0, wide)
+        if ctx.branch(ZeroExt(w, res) != wide): raise NotEncodable('reachable panic: arithmetic overflow in ' + c)
+        return res
+    mg_ = re.fullmatch(r'core::str::<impl str>::get::<(?:std::ops::)?(RangeFrom|RangeTo|Range)<usize>>', c)
+    if mg_:
+        s_ = _d(args[0]); r_ = args[1]
+        vals = [concrete_index(x) for x in (r_.f if isinstance(r_, Struct) else r_)]
+        lo, hi = {'RangeFrom': lambda: (vals[0], len(s_.b)), 'RangeTo': lambda: (0, vals[0]), 'Range': lambda: (vals[0], vals[1])}[mg_.group(1)]()
+        if lo > hi or hi > len(s_.b): return Enum('None', [])
+        return Enum('Some', [Str(s_.b[lo:hi])])
+    me_ = re.fullmatch(r'core::num::<impl i(8|16|32|64)>::(rem_euclid|div_euclid)', c)
+    if me_:
+        a, b = args[0], args[1]
+        if isinstance(a, int) and isinstance(b, int):
+            if b == 0: raise NotEncodable('reachable division by zero')
+            r = a % abs(b)
+            return r if me_.group(2) == 'rem_euclid' else (a - r) // b
+        w = int(me_.group(1))
+        if not isinstance(b, int):
+            b = simplify(b)
+            if not is_bv_value(b): raise NotEncodable('euclidean division by a symbolic divisor')
+            b = b.as_signed_long()
+        if b <= 0: raise NotEncodable('euclidean division by a non-positive constant')
+        a = BitVecVal(a, w) if isinstance(a, int) else a
+        bv = BitVecVal(b, w)
+        r = SRem(a, bv)
+        if me_.group(2) == 'rem_euclid': return If(r < 0, r + bv, r)
+        return If(r < 0, a / bv - 1, a / bv)
+    mp_ = re.fullmatch(r'core::num::<impl u(8|16|32|64)>::pow', c)
+    if mp_:
+        w = int(mp_.group(1)); base, ex = args[0], args[1]
+        if not isinstance(base, int):
+            base = simplify(base)
+            if not is_bv_value(base): raise NotEncodable('pow with a symbolic base')
+            base = base.as_long()
+        if not isinstance(ex, int):
+            ex = simplify(ex)
+            if is_bv_value(ex): ex = ex.as_long()
+        if not isinstance(ex, int):
+            k = 0
+            while True:
+                if base ** k >= (1 << w): raise NotEncodable('reachable panic: attempt to multiply with overflow in pow')
+                if ctx.branch(ex == k): ex = k; break
+                k += 1
+        if base ** ex >= (1 << w): raise NotEncodable('reachable panic: attempt to multiply with overflow in pow')
+        return BitVecVal(base ** ex, w)
+    mi2 = re.fullmatch(r'<(T|u8|u16|u32) as Into<u(16|32|64)>>::into|<u(?:16|32|64) as From<(u8|u16|u32)>>::from', c)
+    if mi2 and is_expr(args[0]) and is_bv(args[0]):
+        w = int(mi2.group(2) or re.search(r'<u(\d+) as From', c).group(1))
+        return ZeroExt(w - args[0].size(), args[0]) if args[0].size() < w else args[0]
     mi_ = re.fullmatch(r'<T as Into<(?:\w+::)*(\w+)>>::into', c)
     if mi_ and GENERICS and GENERICS[-1] and GENERICS[-1][0].split('::')[-1] == mi_.group(1): return args[0]
     if c in ('core::str::<impl str>::as_bytes', 'String::as_bytes', 'std::string::String::as_bytes'): return _d(args[0])
@@ -941,6 +1004,7 @@ def call(fr, callee, args, ctx):
         v = args[0].get() if isinstance(args[0], Ref) else args[0]
         return Str(list(v.b))
     m = re.fullmatch(r'(?:\w+::)*(\w+)(?:::<[^>]*>)?::(\w+)(?:::<(.*)>)?', c)
+    if m and (c.startswith(('core::', 'std::', 'alloc::')) and '<impl ' in c): m = None       # inherent impls of std types are contracts, never resolved by name
     if m:      # inherent method written Type::method: resolve to the impl fn with that receiver type
         ty, meth = m.group(1), m.group(2)
         cands = [n for n, f in FNS.items() if n.endswith('::' + meth) and '<impl at' in n and re.match(r'_1: &?(mut )?(?:\w+::)*%s\b' % re.escape(ty), f.ptext)]
@@ -948,6 +1012,8 @@ def call(fr, callee, args, ctx):
         if len(cands) != 1:    # associated function without a receiver (constructor): resolve by the result type
             cands = [n for n, f in FNS.items() if n.endswith('::' + meth) and '<impl at' in n and re.fullmatch(r'(?:\w+::)*%s(<.*>)?' % re.escape(ty), f.ret.strip())
                      and len(args) == f.params]
+        if len(cands) != 1 and '<impl ' not in c and not c.startswith(('core::', 'std::', 'alloc::')):    # associated function whose name and arity are unique among the impl blocks of the dumped crates
+            cands = [n for n, f in FNS.items() if n.endswith('>::' + meth) and '<impl at' in n and f.params == len(args)]
         if len(cands) == 1:
             GENERICS.append(split_top(m.group(3)) if m.group(3) else [])
             try: return run_fn(cands[0], args, ctx)
